@@ -77,6 +77,15 @@ theorem c18_heal_glue_agrees_with_evaluated_source :
     (∀ raw : List Char, (shownPrefix (String.ofList raw)).length = min 200 raw.length) :=
   ⟨by decide +kernel, by decide +kernel, by decide +kernel, shownPrefix_length⟩
 
+/-- "Reports HEALED/VALID only with a schema-valid structure and otherwise tags the result for degradation":
+    with a validator that accepts from its `k`-th answer on (`k` = 0 … 5, `max_retries` 3, fresh loop and a
+    re-configured used one) the code under test reported VALID_FIRST_TRY / HEALED untagged after `k + 1` calls
+    carrying the validator's own last answer, and DEGRADED, tagged, confidence 0, nothing carried, after 4 calls
+    when `k > 3` — exactly the model's outcome. -/
+theorem c18_outcome_agrees_with_evaluated_source :
+    ∀ e ∈ Gen.healedTable, e.2.isSome = true ∧ e.2 = healedAt e.1 := by
+  decide +kernel
+
 /-- "Feeds each retry the previous attempt's error": on the code under test the error context shown to retry
     `i` (1 … 4, on a fresh loop and on the second call of a used one) carried the validator trace and the raw
     output of attempt `i − 1` and of no other attempt — and the model shows retry `i` exactly the context built
